@@ -56,6 +56,8 @@ func (o *OptModel) cliArgs(p *Project) []string {
 		a = append(a, "--outbase=src")
 	case 2:
 		a = append(a, "--outbase=.")
+	case 3:
+		a = append(a, "--outbase=src/lib")
 	}
 	switch o.OutExt {
 	case 1:
